@@ -1,147 +1,314 @@
-(* C20 — proofs.  The two-object protocol: objects 0 and 1, any link (0,n) -> / <-> (1,m)
-   between traits of the same kind (alias or not), any values, any history of assignments and
-   list mutations on all eight traits, link removal, re-linking, collection of object 1.
-   The proofs are symbolic executions of Model.step on a state whose *structure* (tables,
-   handlers) is concrete and whose trait values are universally quantified, followed by
-   induction over the history.  Propagation needs recursion depth 2 (fuel S (S F)). *)
+(* C20 — proofs, part 2: link creation / removal / partner death between the shapes of Steps.v,
+   the protocol automaton, and the induction over histories. *)
 From Coq Require Import ZArith List Bool Arith Lia.
-From TV Require Import Common.Harness C20.ListSem C20.ListProofs C20.Model C20.Law.
+From TV Require Import Common.Harness C20.ListSem C20.ListProofs C20.Model C20.Law C20.Steps.
 Import ListNotations.
 Open Scope Z_scope.
 
-(* ---------- values ---------- *)
-Definition tv (s0 s1 : Z) (l0 l1 : list Z) : list val := [VS s0; VS s1; VL l0; VL l1].
-Definition typed (vs : list val) : Prop := exists s0 s1 l0 l1, vs = tv s0 s1 l0 l1.
-Definition link_ok (n m : name) : Prop := (n < 4)%nat /\ (m < 4)%nat /\ is_list_name n = is_list_name m.
-
-Lemma zlist_eqb_eq a : forall b, zlist_eqb a b = true -> a = b.
-Proof.
-  induction a as [|x a IH]; destruct b as [|y b]; cbn; try discriminate; auto.
-  intros H. apply andb_prop in H. destruct H as [H1 H2]. apply Z.eqb_eq in H1. apply IH in H2. congruence.
-Qed.
-Lemma zlist_eqb_refl a : zlist_eqb a a = true.
-Proof. induction a; cbn; auto. rewrite Z.eqb_refl. exact IHa. Qed.
-
-(* ---------- the four shapes of the two-object pool ---------- *)
-Definition att_i_of (n m : name) : list name := if is_list_name n && is_list_name m then [n] else [].
-
-Inductive mode :=
-| MFresh                                  (* no link *)
-| MMutual (n m : name)                    (* (0,n) <-> (1,m) *)
-| MOneway (n m : name)                    (* (0,n) -> (1,m) *)
-| MDead (atts atti : list name).          (* object 1 collected; handlers of object 0 still attached *)
-
-Definition shape (md : mode) (va vb : list val) : list ostate :=
-  match md with
-  | MFresh => [fresh va; fresh vb]
-  | MMutual n m =>
-      [ mkO true va [(n, [(1%nat, m)])] [] [n] (att_i_of n m);
-        mkO true vb [(m, [(0%nat, n)])] [] [m] (att_i_of m n) ]
-  | MOneway n m => [ mkO true va [(n, [(1%nat, m)])] [] [n] (att_i_of n m); fresh vb ]
-  | MDead atts atti => [ mkO true va [] [] atts atti; dead_obj ]
-  end.
-
-Definition edges_of (md : mode) : list edge :=
-  match md with
-  | MMutual n m => [((0%nat, n), (1%nat, m)); ((1%nat, m), (0%nat, n))]
-  | MOneway n m => [((0%nat, n), (1%nat, m))]
-  | _ => []
-  end.
-
-Definition snap_of (md : mode) (va vb : list val) : snap :=
-  match md with MDead _ _ => [va; []] | _ => [va; vb] end.
-
-(* what holds between operations *)
-Definition inv (md : mode) (va vb : list val) : Prop :=
-  typed va /\ typed vb /\
-  match md with
-  | MMutual n m => link_ok n m /\ nth_error va n = nth_error vb m
-  | MOneway n m => link_ok n m
-  | _ => True
-  end.
-
-(* after one step from mode md (before-values va vb) into mode md' *)
-Definition post (md md' : mode) (va vb : list val) (o : op) (r : state * obs) : Prop :=
-  exists va' vb',
-    objs (fst r) = shape md' va' vb' /\ inv md' va' vb' /\ overflow (fst r) = false /\
-    ob_vals (snd r) = snap_of md' va' vb' /\
-    law_step (edges_of md) (snap_of md va vb) o (snd r) = [].
-
-Definition st_of (md : mode) (va vb : list val) (nts : list (oid * name)) : state :=
-  mkS (shape md va vb) nts false.
-
-(* ---------- tactics ---------- *)
-Ltac names_cases n m H :=
-  let Hn := fresh in let Hm := fresh in let Hk := fresh in
-  destruct H as (Hn & Hm & Hk);
-  destruct n as [|[|[|[|n]]]]; try lia; destruct m as [|[|[|[|m]]]]; try lia;
-  try discriminate Hk; clear Hn Hm Hk.
-
-Ltac cb := cbn -[Z.eqb zlist_eqb mutate apply_event Z.leb].
-
-Ltac split_ifs :=
-  rewrite ?Z.eqb_refl, ?zlist_eqb_refl; cb;
-  repeat (match goal with
-          | |- context [?a =? ?b] =>
-              tryif constr_eq a b then fail else
-              (let E := fresh "E" in destruct (a =? b) eqn:E; [apply Z.eqb_eq in E; subst|])
-          | |- context [zlist_eqb ?a ?b] =>
-              tryif constr_eq a b then fail else
-              (let E := fresh "E" in destruct (zlist_eqb a b) eqn:E; [apply zlist_eqb_eq in E; subst|])
-          end; rewrite ?Z.eqb_refl, ?zlist_eqb_refl; cb).
-
-Ltac typed_ok := do 4 eexists; reflexivity.
-
-Ltac solve_post :=
-  rewrite ?Z.eqb_refl, ?zlist_eqb_refl; cb;
-  do 2 eexists; split; [reflexivity|];
+Ltac finish_dead :=
+  eexists; exists (@nil val); split; [reflexivity|];
   split; [ repeat split; try typed_ok; try lia; try reflexivity |];
   repeat split; reflexivity.
+Ltac solve_dead :=
+  unfold post; cb; use_hyps; rewrite ?Z.eqb_refl, ?zlist_eqb_refl; cb; split_ifs2; finish_dead.
 
-Ltac values va vb :=
-  let s0 := fresh "s0" in let s1 := fresh "s1" in let l0 := fresh "l0" in let l1 := fresh "l1" in
-  let t0 := fresh "t0" in let t1 := fresh "t1" in let k0 := fresh "k0" in let k1 := fresh "k1" in
-  destruct va as (s0 & s1 & l0 & l1 & ->); destruct vb as (t0 & t1 & k0 & k1 & ->).
+(* ---------- object 1 is dead: object 0 behaves like an unlinked object ---------- *)
+Lemma dead_assign F w va vb nts k v :
+  inv (MDead w) va vb -> (k < 4)%nat ->
+  post (MDead w) (MDead w) va vb (Assign 0%nat k v) (step (S (S F)) (st_of (MDead w) va vb nts) (Assign 0%nat k v)).
+Proof.
+  intros (Ta & _ & Hl) Hk. destruct Ta as (s0 & s1 & l0 & l1 & ->). destruct w as [[n m]|].
+  - names_cases n m Hl; destruct k as [|[|[|[|k]]]]; try lia; clear Hk;
+    destruct v as [z|l]; eval_step; split_ifs; solve_dead.
+  - destruct k as [|[|[|[|k]]]]; try lia; clear Hk;
+    destruct v as [z|l]; eval_step; split_ifs; solve_dead.
+Qed.
 
-Ltac op_cases x k Hx Hk :=
-  destruct x as [|[|x]]; try lia; destruct k as [|[|[|[|k]]]]; try lia; clear Hx Hk.
+Lemma dead_mut F w va vb nts k mu :
+  inv (MDead w) va vb -> (k < 4)%nat -> (forall l, replay_ok l mu) ->
+  post (MDead w) (MDead w) va vb (Mut 0%nat k mu) (step (S (S F)) (st_of (MDead w) va vb nts) (Mut 0%nat k mu)).
+Proof.
+  intros (Ta & _ & Hl) Hk Hr. destruct Ta as (s0 & s1 & l0 & l1 & ->). destruct w as [[n m]|].
+  - names_cases n m Hl; destruct k as [|[|[|[|k]]]]; try lia; clear Hk;
+    eval_step; mut_cases Hr; split_ifs; solve_dead.
+  - destruct k as [|[|[|[|k]]]]; try lia; clear Hk;
+    eval_step; mut_cases Hr; split_ifs; solve_dead.
+Qed.
 
-(* after [mutate] has been destructed: the event branch (replay on an equal partner, any outcome on
-   an unequal one), the silent branch, the raising branch *)
-Ltac mut_cases Hr :=
-  match goal with
-  | |- context [mutate ?l ?mu] =>
-      let H := fresh "Hmu" in
-      destruct (mutate l mu) as [[?l' [?ev|]]|?e] eqn:H; cb;
-      [ split_ifs;
-        try (let oev := fresh "oev" in let Hap := fresh "Hap" in
-             destruct (proj1 (Hr l) _ _ H) as [oev Hap]; rewrite ?Hap; cb; destruct oev; cb);
-        repeat (match goal with
-                | |- context [apply_event ?pl ?e0] =>
-                    destruct (apply_event pl e0) as [[?pl' [?ev'|]]|?e'] eqn:?; cb
-                end)
-      | pose proof (proj2 (Hr l) _ H); subst
-      | destruct (mutate_raises _ _ _ H) as [-> | ->] ]
+(* ---------- link creation ---------- *)
+Lemma fresh_sync F n m (mutual : bool) va vb nts :
+  inv MFresh va vb -> link_ok n m ->
+  post MFresh (if mutual then MMutual n m else MOneway n m) va vb (Sync 0%nat n 1%nat m mutual)
+       (step (S (S F)) (st_of MFresh va vb nts) (Sync 0%nat n 1%nat m mutual)).
+Proof.
+  intros (Ta & Tb & _) Hl. values Ta Tb.
+  names_cases n m Hl; destruct mutual; eval_step; split_ifs; solve_post.
+Qed.
+
+(* a one-way link completed to a mutual one from the other side *)
+Lemma oneway_upgrade F n m va vb nts :
+  inv (MOneway n m) va vb ->
+  post (MOneway n m) (MMutual n m) va vb (Sync 1%nat m 0%nat n false)
+       (step (S (S F)) (st_of (MOneway n m) va vb nts) (Sync 1%nat m 0%nat n false)).
+Proof.
+  intros (Ta & Tb & Hl). values Ta Tb.
+  names_cases n m Hl; eval_step; split_ifs; solve_post.
+Qed.
+
+(* ---------- link removal restores the pristine pool ---------- *)
+Lemma mutual_unsync F n m va vb nts :
+  inv (MMutual n m) va vb ->
+  post (MMutual n m) MFresh va vb (Unsync 0%nat n 1%nat m true)
+       (step (S (S F)) (st_of (MMutual n m) va vb nts) (Unsync 0%nat n 1%nat m true)).
+Proof.
+  intros (Ta & Tb & Hl & He). values Ta Tb.
+  names_cases n m Hl; cbn in He; injection He as He; subst; eval_step; split_ifs; solve_post.
+Qed.
+
+Lemma mutual_unsync_rev F n m va vb nts :
+  inv (MMutual n m) va vb ->
+  post (MMutual n m) MFresh va vb (Unsync 1%nat m 0%nat n true)
+       (step (S (S F)) (st_of (MMutual n m) va vb nts) (Unsync 1%nat m 0%nat n true)).
+Proof.
+  intros (Ta & Tb & Hl & He). values Ta Tb.
+  names_cases n m Hl; cbn in He; injection He as He; subst; eval_step; split_ifs; solve_post.
+Qed.
+
+Lemma oneway_unsync F n m (mutual : bool) va vb nts :
+  inv (MOneway n m) va vb ->
+  post (MOneway n m) MFresh va vb (Unsync 0%nat n 1%nat m mutual)
+       (step (S (S F)) (st_of (MOneway n m) va vb nts) (Unsync 0%nat n 1%nat m mutual)).
+Proof.
+  intros (Ta & Tb & Hl). values Ta Tb.
+  names_cases n m Hl; destruct mutual; eval_step; split_ifs; solve_post.
+Qed.
+
+(* ---------- the partner is garbage-collected ---------- *)
+Definition dead_of (md : mode) : mode :=
+  match md with
+  | MMutual n m | MOneway n m => MDead (Some (n, m))
+  | MFresh => MDead None
+  | MDead w => MDead w
   end.
 
-(* ---------- value operations keep the mode and satisfy the law ---------- *)
-Lemma mutual_assign F n m va vb nts x k v :
-  inv (MMutual n m) va vb -> (x < 2)%nat -> (k < 4)%nat ->
-  post (MMutual n m) (MMutual n m) va vb (Assign x k v)
-       (step (S (S F)) (st_of (MMutual n m) va vb nts) (Assign x k v)).
+Lemma collect_partner F md va vb nts :
+  inv md va vb -> (match md with MDead _ => False | _ => True end) ->
+  post md (dead_of md) va vb (Collect 1%nat) (step (S (S F)) (st_of md va vb nts) (Collect 1%nat)).
 Proof.
-  intros (Ta & Tb & Hl & He) Hx Hk. values Ta Tb.
-  names_cases n m Hl; op_cases x k Hx Hk; cbn in He; injection He as He; subst;
-  destruct v as [z|l]; unfold post; cb; split_ifs; solve_post.
+  intros Hi Hd. destruct md as [|n m|n m|w]; try contradiction.
+  - destruct Hi as (Ta & Tb & _). values Ta Tb. eval_step; split_ifs; solve_dead.
+  - destruct Hi as (Ta & Tb & Hl & He). values Ta Tb.
+    names_cases n m Hl; cbn in He; injection He as He; subst; eval_step; split_ifs; solve_dead.
+  - destruct Hi as (Ta & Tb & Hl). values Ta Tb.
+    names_cases n m Hl; eval_step; split_ifs; solve_dead.
 Qed.
 
-Lemma mutual_mut F n m va vb nts x k mu :
-  inv (MMutual n m) va vb -> (x < 2)%nat -> (k < 4)%nat -> (forall l, replay_ok l mu) ->
-  post (MMutual n m) (MMutual n m) va vb (Mut x k mu)
-       (step (S (S F)) (st_of (MMutual n m) va vb nts) (Mut x k mu)).
+(* ---------- the protocol automaton and the induction over histories ---------- *)
+Definition on_live (md : mode) (x : oid) : Prop :=
+  match md with MDead _ => x = 0%nat | _ => (x < 2)%nat end.
+Definition not_dead (md : mode) : Prop := match md with MDead _ => False | _ => True end.
+
+Section Protocol.
+  (* the list mutators allowed in histories: any set whose events replay (C05's replay law);
+     [simple_mut] (everything but slice keys) is proved to qualify in ListProofs.v *)
+  Variable allowed : mut -> Prop.
+  Hypothesis allowed_replays : forall mu, allowed mu -> forall l, replay_ok l mu.
+
+  Inductive trans : mode -> op -> mode -> Prop :=
+  | T_assign md x k v : on_live md x -> (k < 4)%nat -> trans md (Assign x k v) md
+  | T_mut md x k mu : on_live md x -> (k < 4)%nat -> allowed mu -> trans md (Mut x k mu) md
+  | T_sync n m b : link_ok n m ->
+      trans MFresh (Sync 0%nat n 1%nat m b) (if b then MMutual n m else MOneway n m)
+  | T_upgrade n m : trans (MOneway n m) (Sync 1%nat m 0%nat n false) (MMutual n m)
+  | T_unsync n m : trans (MMutual n m) (Unsync 0%nat n 1%nat m true) MFresh
+  | T_unsync_rev n m : trans (MMutual n m) (Unsync 1%nat m 0%nat n true) MFresh
+  | T_unsync1 n m b : trans (MOneway n m) (Unsync 0%nat n 1%nat m b) MFresh
+  | T_collect md : not_dead md -> trans md (Collect 1%nat) (dead_of md).
+
+  Inductive accepts : mode -> list op -> Prop :=
+  | A_nil md : accepts md []
+  | A_cons md o md' r : trans md o md' -> accepts md' r -> accepts md (o :: r).
+
+  Lemma trans_post F md o md' va vb nts :
+    trans md o md' -> inv md va vb ->
+    post md md' va vb o (step (S (S F)) (st_of md va vb nts) o).
+  Proof.
+    intros T Hi. destruct T.
+    - destruct md as [|n m|n m|w]; cbn in H.
+      + apply fresh_assign; auto.
+      + apply mutual_assign; auto.
+      + apply oneway_assign; auto.
+      + subst. apply dead_assign; auto.
+    - pose proof (allowed_replays _ H1) as Hr. destruct md as [|n m|n m|w]; cbn in H.
+      + apply fresh_mut; auto.
+      + apply mutual_mut; auto.
+      + apply oneway_mut; auto.
+      + subst. apply dead_mut; auto.
+    - apply fresh_sync; auto.
+    - apply oneway_upgrade; auto.
+    - apply mutual_unsync; auto.
+    - apply mutual_unsync_rev; auto.
+    - apply oneway_unsync; auto.
+    - apply collect_partner; auto.
+  Qed.
+
+  Lemma trans_edges md o md' va vb :
+    trans md o md' -> inv md va vb -> edges_after (edges_of md) o = edges_of md'.
+  Proof.
+    intros T Hi. destruct T.
+    all: try solve [reflexivity | destruct b; reflexivity].
+    all: try solve [destruct Hi as (_ & _ & Hl & _); names_cases n m Hl; reflexivity].
+    all: try solve [destruct Hi as (_ & _ & Hl); names_cases n m Hl; try destruct b; reflexivity].
+    all: try solve [destruct md as [|n m|n m|w]; try contradiction; reflexivity].
+  Qed.
+
+  Lemma state_eta st md va vb :
+    objs st = shape md va vb -> overflow st = false -> st = st_of md va vb (notes st).
+  Proof. destruct st; cbn; intros -> ->; reflexivity. Qed.
+
+  Theorem protocol_law F h : forall md va vb nts i,
+    inv md va vb -> accepts md h ->
+    law_hist i (edges_of md) (snap_of md va vb) (run (S (S F)) (st_of md va vb nts) h) = [].
+  Proof.
+    induction h as [|o r IH]; intros md va vb nts i Hi Ha; [reflexivity|].
+    inversion Ha as [|md0 o0 md' r0 T Ha']; subst.
+    pose proof (trans_post F _ _ _ _ _ nts T Hi) as (va' & vb' & Hs & Hi' & Hov & Hv & Hlaw).
+    pose proof (trans_edges _ _ _ _ _ T Hi) as He.
+    cbn [run]. destruct (step (S (S F)) (st_of md va vb nts) o) as [st' ob] eqn:Hst.
+    cbn [fst snd] in *. cbn [law_hist]. rewrite Hlaw, He, Hv. cbn [map app].
+    rewrite (state_eta _ _ _ _ Hs Hov). apply IH; assumption.
+  Qed.
+
+  (* every state reached by an accepted history has the shape of its mode, with fuel 2 *)
+  Theorem protocol_no_overflow F h : forall md va vb nts,
+    inv md va vb -> accepts md h ->
+    Forall (fun p => ob_out (snd p) <> Raised RecursionError) (run (S (S F)) (st_of md va vb nts) h).
+  Proof.
+    induction h as [|o r IH]; intros md va vb nts Hi Ha; [constructor|].
+    inversion Ha as [|md0 o0 md' r0 T Ha']; subst.
+    pose proof (trans_post F _ _ _ _ _ nts T Hi) as (va' & vb' & Hs & Hi' & Hov & Hv & Hlaw).
+    cbn [run]. destruct (step (S (S F)) (st_of md va vb nts) o) as [st' ob] eqn:Hst.
+    cbn [fst snd] in *. constructor.
+    - cbn [snd]. (* clause 5: the outcome is the plain operation's, which is never RecursionError *)
+      unfold law_step in Hlaw.
+      destruct (plain (snap_of md va vb) o) as [expected target] eqn:Hp.
+      repeat (apply app_eq_nil in Hlaw; destruct Hlaw as [? Hlaw]).
+      match goal with H : chk 5 _ = [] |- _ => unfold chk in H;
+        destruct (outcome_eqb (ob_out ob) expected) eqn:Ho; [|discriminate H] end.
+      intros Hout. rewrite Hout in Ho.
+      destruct expected as [|e]; [discriminate Ho|].
+      assert (e = RecursionError) as -> by (destruct e; cbn in Ho; try discriminate; reflexivity).
+      unfold plain in Hp. destruct o; try discriminate Hp.
+      + destruct (kind_ok n v); discriminate Hp.
+      + destruct (sval _ _) as [[z|l]|]; try discriminate Hp.
+        destruct (mutate l m) as [[l' oev]|e] eqn:Hm; [discriminate Hp|].
+        injection Hp as -> _. apply mutate_raises in Hm. destruct Hm; discriminate.
+    - rewrite (state_eta _ _ _ _ Hs Hov). apply IH; assumption.
+  Qed.
+End Protocol.
+
+(* ---------- explicit per-step readings ---------- *)
+Lemma sval2 va vb x k : sval [va; vb] (x, k) = match x with O => nth_error va k | S O => nth_error vb k | _ => None end.
+Proof. unfold sval. cbn. destruct x as [|[|[|x]]]; cbn; try reflexivity; destruct k; reflexivity. Qed.
+
+(* mutual link: after every assignment / allowed mutation on any trait of either object the two linked
+   traits are equal, and the tables are unchanged (so this holds again after the next operation) *)
+Lemma mutual_converges_step F n m va vb nts o :
+  inv (MMutual n m) va vb ->
+  (match o with
+   | Assign x k _ => (x < 2)%nat /\ (k < 4)%nat
+   | Mut x k mu => (x < 2)%nat /\ (k < 4)%nat /\ (forall l, replay_ok l mu)
+   | _ => False end) ->
+  let r := step (S (S F)) (st_of (MMutual n m) va vb nts) o in
+  sval (ob_vals (snd r)) (0%nat, n) = sval (ob_vals (snd r)) (1%nat, m) /\
+  exists va' vb', objs (fst r) = shape (MMutual n m) va' vb' /\ inv (MMutual n m) va' vb' /\
+                  overflow (fst r) = false.
 Proof.
-  intros (Ta & Tb & Hl & He) Hx Hk Hr. values Ta Tb.
-  names_cases n m Hl; op_cases x k Hx Hk; cbn in He; injection He as He; subst;
-  unfold post; cb; try solve [solve_post].
-  all: mut_cases Hr; split_ifs; solve_post.
+  intros Hi Ho r.
+  assert (post (MMutual n m) (MMutual n m) va vb o r) as (va' & vb' & Hs & Hi' & Hov & Hv & _).
+  { destruct o; try contradiction.
+    - destruct Ho. apply mutual_assign; auto.
+    - destruct Ho as (? & ? & ?). apply mutual_mut; auto. }
+  split; [|eauto].
+  rewrite Hv. cbn [snap_of]. rewrite !sval2. destruct Hi' as (_ & _ & _ & He). exact He.
 Qed.
+
+(* removal of the link restores the pristine pool: objects that were never linked *)
+Lemma removed_link_pristine F n m va vb nts :
+  inv (MMutual n m) va vb ->
+  exists va' vb', objs (fst (step (S (S F)) (st_of (MMutual n m) va vb nts) (Unsync 0%nat n 1%nat m true)))
+                  = map fresh [va'; vb'] /\ ob_vals (snd (step (S (S F)) (st_of (MMutual n m) va vb nts) (Unsync 0%nat n 1%nat m true))) = [va'; vb'].
+Proof.
+  intros Hi. destruct (mutual_unsync F n m va vb nts Hi) as (va' & vb' & Hs & _ & _ & Hv & _).
+  exists va', vb'. split; [exact Hs|exact Hv].
+Qed.
+
+Lemma chk_nil k b : chk k b = [] -> b = true.
+Proof. destruct b; [reflexivity|discriminate]. Qed.
+
+(* ---------- reading the clauses off  law_step = []  ---------- *)
+Lemma val_eqb_eq a b : val_eqb a b = true -> a = b.
+Proof.
+  destruct a, b; cbn; try discriminate.
+  - intros H. apply Z.eqb_eq in H. congruence.
+  - intros H. apply zlist_eqb_eq in H. congruence.
+Qed.
+Lemma oval_eqb_eq a b : oval_eqb a b = true -> a = b.
+Proof. destruct a, b; cbn; try discriminate; auto. intros H. apply val_eqb_eq in H. congruence. Qed.
+
+Definition clause7 (ob : obs) : bool := forallb (forallb (fun c => c <=? 1)) (ob_cnt ob).
+
+Lemma law_step_clauses E before o ob :
+  law_step E before o ob = [] ->
+  let E' := edges_after E o in
+  let '(expected, target) := plain before o in
+  (* 1 *) forallb (fun e => negb (has_edge (snd e, fst e) E')
+                           || oval_eqb (sval (ob_vals ob) (fst e)) (sval (ob_vals ob) (snd e))) E' = true /\
+  (* 4 *) forallb (fun y => has_node y (reach E' (origins o expected))
+                            || negb (alive_in before (fst y) && alive_in (ob_vals ob) (fst y))
+                            || (oval_eqb (sval (ob_vals ob) y) (sval before y) && (scnt (ob_cnt ob) y =? 0)))
+                  (all_nodes before) = true /\
+  (* 5 *) outcome_eqb (ob_out ob) expected = true /\
+  (* 6 *) ob_logged ob = 0 /\
+  (* 7 *) clause7 ob = true /\
+  (* 8 *) match target with Some (x, v) => sval (ob_vals ob) x = Some v | None => True end.
+Proof.
+  unfold law_step. destruct (plain before o) as [expected target]. intros H.
+  repeat (apply app_eq_nil in H; let H1 := fresh "C" in destruct H as [H1 H]).
+  apply chk_nil in C, C2, C3, C4, C5, H.
+  repeat split; auto.
+  - apply Z.eqb_eq; assumption.
+  - destruct target as [[x v]|]; [|exact I]. apply oval_eqb_eq; assumption.
+Qed.
+
+Section ProtocolSteps.
+  Variable allowed : mut -> Prop.
+  Hypothesis allowed_replays : forall mu, allowed mu -> forall l, replay_ok l mu.
+
+  (* every step of an accepted history satisfies the law for the links live at that step *)
+  Theorem protocol_steps F h : forall md va vb nts,
+    inv md va vb -> accepts allowed md h ->
+    Forall (fun p => exists E before, law_step E before (fst p) (snd p) = [])
+           (run (S (S F)) (st_of md va vb nts) h).
+  Proof.
+    induction h as [|o r IH]; intros md va vb nts Hi Ha; [constructor|].
+    inversion Ha as [|md0 o0 md' r0 T Ha']; subst.
+    pose proof (trans_post allowed allowed_replays F _ _ _ _ _ nts T Hi)
+      as (va' & vb' & Hs & Hi' & Hov & Hv & Hlaw).
+    cbn [run]. destruct (step (S (S F)) (st_of md va vb nts) o) as [st' ob] eqn:Hst.
+    cbn [fst snd] in *. constructor; [cbn [fst snd]; eauto|].
+    rewrite (state_eta _ _ _ _ Hs Hov). apply IH; assumption.
+  Qed.
+
+  Theorem protocol_one_notification F h md va vb nts :
+    inv md va vb -> accepts allowed md h ->
+    Forall (fun p => clause7 (snd p) = true /\ ob_logged (snd p) = 0)
+           (run (S (S F)) (st_of md va vb nts) h).
+  Proof.
+    intros Hi Ha. eapply Forall_impl; [|apply protocol_steps; eassumption].
+    intros [o ob] (E & before & Hl). cbn [fst snd] in *.
+    pose proof (law_step_clauses _ _ _ _ Hl) as Hc. cbn zeta in Hc.
+    destruct (plain before o). destruct Hc as (_ & _ & _ & H6 & H7 & _). auto.
+  Qed.
+End ProtocolSteps.
+
